@@ -26,6 +26,10 @@ class Node:
     def __init__(self, tag, children):
         self.tag = tag
         self.children = children
+class TNode(Node):
+    """a node the recursive pickler treats like a tuple: an immutable container, memoised only AFTER its children were saved; if
+    saving the children memoised it meanwhile (a tuple that contains itself through some object), the second copy is dropped and a
+    reference is written instead (pickle.Pickler.save_tuple)"""
 class Pickler:
     """stand-in for dill.Pickler: pickles a Node graph the way the recursive pickler does (open, memoize, children, close;
     a reference for an object that is already memoised)"""
@@ -46,6 +50,17 @@ class Pickler:
             return
         if obj in self.memo:
             self.write(("REF", obj.tag))
+            return
+        if isinstance(obj, TNode):
+            self.write(("TOPEN", obj.tag))
+            for c in obj.children:
+                self.save(c)
+            if obj in self.memo:
+                self.write(("TDROP", obj.tag))
+                self.write(("REF", obj.tag))
+                return
+            self.write(("TCLOSE", obj.tag))
+            self.memoize(obj)
             return
         self.write(("OPEN", obj.tag))
         self.memoize(obj)
@@ -89,9 +104,10 @@ def trees(maxn):
     return shapes
 
 
-def build(h, g, shape, share=None, leaf_bytes=False):
+def build(h, g, shape, share=None, leaf_bytes=False, tuples=()):
     """-> root Node object; `share`: (i, j) makes the j-th node (pre-order) an extra child reference to the i-th.  With leaf_bytes the
-    childless nodes below the root are bytes values (leaf objects that the pickler memoises too)."""
+    childless nodes below the root are bytes values (leaf objects that the pickler memoises too); `tuples`: pre-order indexes of the
+    nodes that are tuple-like (TNode)."""
     nodes = []
 
     def mk(s, top=False):
@@ -99,7 +115,7 @@ def build(h, g, shape, share=None, leaf_bytes=False):
         if leaf_bytes and not top and len(s) == 1:
             nodes.append(f"leaf-{idx}".encode())
             return nodes[-1]
-        n = h.I.call(g["Node"], [f"n{idx}", Seq([], "list")], {})
+        n = h.I.call(g["TNode" if idx in tuples else "Node"], [f"n{idx}", Seq([], "list")], {})
         n.name = f"n{idx}"
         nodes.append(n)
         for k in s[1:]:
@@ -129,6 +145,17 @@ def reference(root):
         if any(n is m for m in memo):
             ev.append(("REF", n.name))
             return
+        if n.cls.name == "TNode":
+            ev.append(("TOPEN", n.name))
+            for c in n.fields["children"].items:
+                save(c)
+            if any(n is m for m in memo):
+                ev.extend([("TDROP", n.name), ("REF", n.name)])
+                return
+            ev.append(("TCLOSE", n.name))
+            memo.append(n)
+            ev.append(("MEMO", n.name))
+            return
         ev.append(("OPEN", n.name))
         memo.append(n)
         ev.append(("MEMO", n.name))
@@ -138,6 +165,35 @@ def reference(root):
 
     save(root)
     return ev
+
+
+def on_cycle(node, only_tuples=False):
+    """is the node reachable from itself through children references (only_tuples: through tuple-like nodes alone)?"""
+    def kids(x):
+        return [c for c in x.fields["children"].items if isinstance(c, Obj) and (not only_tuples or c.cls.name == "TNode")]
+    seen, stack = set(), kids(node)
+    while stack:
+        x = stack.pop()
+        if x is node:
+            return True
+        if id(x) in seen:
+            continue
+        seen.add(id(x))
+        stack += kids(x)
+    return False
+
+
+TUPLE_REPLAY = """import pickle
+from edgegraph.structure import Vertex
+from edgegraph.output import nrpickler
+a, b, c = Vertex(), Vertex(), Vertex()
+route = (b, c)            # a tuple shared by a vertex and by one of its own elements: the tuple lies on a reference cycle
+a.route = route
+b.route = route
+copy = pickle.loads(pickle.dumps(a))          # the recursive pickler copes: the shared tuple stays shared
+assert copy.route is copy.route[0].route
+nrpickler.dumps(a)                            # AssertionError from pickle's memoize (the tuple is memoised twice)
+"""
 
 
 def run(ctx):
@@ -176,13 +232,27 @@ def run(ctx):
         for i, j in itertools.permutations(range(size), 2):
             if ctx.thorough or (i + j) % 2 == 1 or size <= 3:
                 cases.append((s, (i, j)))
-    cases = [(s_, sh_, False) for s_, sh_ in cases] + [(s_, sh_, True) for s_, sh_ in cases if "leaf" in str(s_)[6:]]
-    for shape, share, leaf_bytes in cases:
+    cases = [(s_, sh_, False, ()) for s_, sh_ in cases] + [(s_, sh_, True, ()) for s_, sh_ in cases if "leaf" in str(s_)[6:]]
+    # tuple-like nodes (memoised after their children): each node in turn, in trees of up to 3 (thorough 4) nodes, alone and with
+    # one extra reference - which may close a cycle through the tuple
+    tcases = []
+    for s_, sh_, lb_, _ in list(cases):
+        size = str(s_).count("leaf") + str(s_).count("node")
+        if lb_ or size > (4 if ctx.thorough else 3):
+            continue
+        for t in range(size):
+            tcases.append((s_, sh_, False, (t,)))
+        if size >= 2:
+            tcases.append((s_, sh_, False, tuple(range(size))))
+    cases += tcases
+    for shape, share, leaf_bytes, tuples in cases:
         for entry in ("dumps", "dump"):
             try:
                 h.reset()
                 h.settle()
-                root, nodes = build(h, stub, shape, share, leaf_bytes)
+                root, nodes = build(h, stub, shape, share, leaf_bytes, tuples)
+                if tuples and any(on_cycle(nodes[t], only_tuples=True) for t in tuples if t < len(nodes) and isinstance(nodes[t], Obj)):
+                    continue        # a reference cycle made of tuples only cannot be built (tuples are immutable)
                 if entry == "dumps":
                     out = h.call(mod["dumps"], root)
                     events = out.value.items if out.kind == "return" and isinstance(out.value, Seq) else None
@@ -214,10 +284,13 @@ def run(ctx):
                     why = f"operations reach the file as {body}, the recursive pickler's order is {want}"
                 elif not got or got[-1] != b"." and got[-1] != "STOP":
                     why = f"STOP is not the last thing written: {tail}"
-            res.ob(why is None, sig=(shape, share, entry, leaf_bytes), sample={"shape": str(shape), "shared": share, "entry": entry, "bytes_leaves": leaf_bytes})
+            res.ob(why is None, sig=(shape, share, entry, leaf_bytes, tuples), sample={"shape": str(shape), "shared": share, "entry": entry, "bytes_leaves": leaf_bytes, "tuple_like_nodes": list(tuples)})
             if why:
-                res.violation("SPLICE-ORDER", MOD + "._NonrecursivePickler.dump", f"shared-object={share is not None},entry={entry}" + (",leaves-are-bytes-values" if leaf_bytes else ""),
-                              f"object graph {shape} share={share}{' (childless nodes are bytes values)' if leaf_bytes else ''} through {entry}: {why}")
+                cyc = bool(tuples) and any(on_cycle(nodes[t]) for t in tuples if t < len(nodes) and isinstance(nodes[t], Obj))
+                res.violation("SPLICE-ORDER", MOD + "._NonrecursivePickler.dump", f"shared-object={share is not None},entry={entry}" + (",leaves-are-bytes-values" if leaf_bytes else "")
+                              + (f",tuple-like-node-on-a-cycle={cyc}" if tuples else ""),
+                              f"object graph {shape} share={share}{' (childless nodes are bytes values)' if leaf_bytes else ''}{' with tuple-like nodes ' + str(list(tuples)) if tuples else ''} through {entry}: {why}",
+                              replay=TUPLE_REPLAY if cyc else "")
     res.rule("SPLICE-ORDER", n)
     # ---- NONREC: constant call depth on chains
     depths = {}
